@@ -221,3 +221,149 @@ pub fn fp(parts: &[&[u8]]) -> u64 {
     }
     h
 }
+
+/// lengths of many machine words (4, 5, 8, 9, 16 and 33 words and their neighbours): fast paths that
+/// only engage on long sequences, block-wise algorithms and reallocation states live here
+pub fn long_lengths(bits: u8) -> Vec<usize> {
+    let pw = per_word(bits);
+    let mut v = Vec::new();
+    for w in [4usize, 5, 8, 9, 16, 33] {
+        let b = w * 64 / bits as usize;
+        v.extend([b - 1, b, b + 1, b + pw / 2 + 1]);
+    }
+    v.sort_unstable();
+    v.dedup();
+    v
+}
+
+/// Drain an iterator through `nth` / `skip` / `step_by` / `count` / `last` / `size_hint` and compare
+/// with the model items (these adaptors call the iterator's own `nth`, which an implementation may
+/// override).  `mk` builds a fresh iterator, `key` maps an item to a comparable value.
+/// Returns a list of (class, detail) disagreements.
+pub fn adaptor_laws<I, K>(mk: &dyn Fn() -> I, key: &dyn Fn(I::Item) -> K, want: &[K]) -> Vec<(String, String)>
+where
+    I: Iterator,
+    K: PartialEq + Clone + std::fmt::Debug,
+{
+    let n = want.len();
+    let mut bad: Vec<(String, String)> = Vec::new();
+    let mut v = |c: &str, d: String| {
+        if bad.len() < 8 {
+            bad.push((c.to_string(), d));
+        }
+    };
+    let huge = [usize::MAX, usize::MAX - 1, usize::MAX / 2, usize::MAX / 2 + 1, 1usize << 62, (1usize << 62) + 1, usize::MAX / 3, usize::MAX / 5 + 7];
+    let mut ks: Vec<usize> = vec![0, 1, 2, 3, n / 2, n.saturating_sub(1), n, n + 1];
+    ks.extend(huge);
+    for &k in &ks {
+        // nth(k), then the iterator continues right after item k
+        let r = observe(|| {
+            let mut it = mk();
+            let a = it.nth(k).map(key);
+            let mut rest = Vec::new();
+            for _ in 0..n + 3 {
+                match it.next() {
+                    Some(x) => rest.push(key(x)),
+                    None => break,
+                }
+            }
+            (a, rest)
+        });
+        match r {
+            Ok((a, rest)) => {
+                if a.as_ref() != want.get(k) {
+                    v("nth|wrong-item", format!("nth({k:#x}) = {:?}, item {k} is {:?} (n = {n})", a, want.get(k)));
+                }
+                let exp: &[K] = if k < n { &want[k + 1..] } else { &[] };
+                if rest != exp {
+                    v("nth|wrong-continuation", format!("after nth({k:#x}) the iterator yields {} items {:?}..., expected {} (n = {n})", rest.len(), rest.first(), exp.len()));
+                }
+            }
+            Err(p) => v("nth|panics", format!("nth({k:#x}) panicked: {p}")),
+        }
+        // skip(k)
+        let r = observe(|| mk().skip(k).take(n + 3).map(key).collect::<Vec<K>>());
+        match r {
+            Ok(got) => {
+                let exp: &[K] = if k < n { &want[k..] } else { &[] };
+                if got != exp {
+                    v("skip|wrong-items", format!("skip({k:#x}) yields {} items, expected {} (n = {n})", got.len(), exp.len()));
+                }
+            }
+            Err(p) => v("skip|panics", format!("skip({k:#x}) panicked: {p}")),
+        }
+    }
+    let mut steps: Vec<usize> = vec![1, 2, 3, n.max(1), n + 1];
+    steps.extend(huge);
+    for &s in &steps {
+        let r = observe(|| mk().step_by(s).take(n + 3).map(key).collect::<Vec<K>>());
+        match r {
+            Ok(got) => {
+                let exp: Vec<K> = want.iter().step_by(s).cloned().collect();
+                if got != exp {
+                    v("step_by|wrong-items", format!("step_by({s:#x}) yields {} items {:?}..., expected {} (n = {n})", got.len(), got.get(1), exp.len()));
+                }
+            }
+            Err(p) => v("step_by|panics", format!("step_by({s:#x}) panicked: {p}")),
+        }
+    }
+    // two nth calls in a row (stateful cursors)
+    if n >= 4 {
+        let r = observe(|| {
+            let mut it = mk();
+            let a = it.nth(1).map(key);
+            let b = it.nth(1).map(key);
+            let c = it.next().map(key);
+            (a, b, c)
+        });
+        match r {
+            Ok((a, b, c)) => {
+                if a.as_ref() != want.get(1) || b.as_ref() != want.get(3) || c.as_ref() != want.get(4) {
+                    v("nth|stateful", format!("nth(1), nth(1), next() = {:?} {:?} {:?}, expected items 1, 3, 4", a, b, c));
+                }
+            }
+            Err(p) => v("nth|panics", format!("repeated nth panicked: {p}")),
+        }
+    }
+    match observe(|| (mk().count(), mk().last().map(key), mk().size_hint())) {
+        Ok((c, l, (lo, hi))) => {
+            if c != n {
+                v("count|wrong", format!("count() = {c}, expected {n}"));
+            }
+            if l.as_ref() != want.last() {
+                v("last|wrong", format!("last() = {:?}, expected {:?}", l, want.last()));
+            }
+            if lo > n || hi.map_or(false, |h| h < n) {
+                v("size_hint|excludes-true-length", format!("size_hint() = ({lo}, {hi:?}) but the iterator yields {n} items"));
+            }
+        }
+        Err(p) => v("count|panics", format!("count/last/size_hint panicked: {p}")),
+    }
+    bad
+}
+
+/// The same items presented through iterators with different `size_hint`s: constructors that
+/// pre-allocate or pre-fill from the hint must still take every item exactly once.
+/// Calls `f(shape name, iterator)` once per shape.
+pub fn iterator_shapes<T: Copy + 'static>(items: &[T], mut f: impl FnMut(&'static str, &mut dyn Iterator<Item = T>)) {
+    let n = items.len();
+    // exact: (n, Some(n))
+    f("exact", &mut items.iter().copied());
+    // unknown: (0, None)
+    f("unknown(0,None)", &mut items.iter().copied().filter(|_| true).chain(std::iter::from_fn(|| None)));
+    // lower bound below the true count: (k, None) / (k, Some(n))
+    if n >= 2 {
+        let k = n / 2;
+        f("lower<count(k,Some(n))", &mut items[..k].iter().copied().chain(items[k..].iter().copied().filter(|_| true)));
+        f("lower=1", &mut std::iter::once(items[0]).chain(items[1..].iter().copied().filter(|_| true)));
+    }
+    // upper bound far above the true count: (0, Some(usize::MAX))
+    let mut i = 0usize;
+    f("upper=usize::MAX", &mut std::iter::repeat(()).take(usize::MAX).map_while(|_| { let r = items.get(i).copied(); i += 1; r }));
+    let mut j = 0usize;
+    f("upper=2^62", &mut (0..(1u64 << 62)).map_while(|_| { let r = items.get(j).copied(); j += 1; r }));
+    // peeked
+    let mut p = items.iter().copied().filter(|_| true).peekable();
+    let _ = p.peek();
+    f("peeked", &mut p);
+}
